@@ -15,7 +15,7 @@ import tempfile
 import threading
 
 from . import model, simsched
-from .runner import HarnessError
+from .runner import HarnessError, SubjectFailure
 
 BASE_MTIME = 1_500_000_000
 PY = sys.executable or "/venv/bin/python"
@@ -218,7 +218,7 @@ class Project:
             text = ("yes" if v else "no") if isinstance(v, bool) else str(v)
             r = self.gwf(["config", "set", "--", k, text])
             if r.code != 0:
-                raise HarnessError("config set failed: " + r.brief())
+                raise SubjectFailure("config set failed: " + r.brief())
 
     def read_config(self):
         try:
